@@ -140,6 +140,10 @@ def bounded(sess: Session):
 
 
 def run(sess: Session):
+    from contracts import C12 as _c12
+    for _ob in _c12.placeholder_identity_obligations():
+        _ob.prop = PROP          # seen-sets / path sets of synsets rely on it to keep inferred placeholders apart
+        sess.check(_ob)
     sess.level = 'exploration'
     sess.explanation = ('bounded stand-in (exhaustive small-scope enumeration on the real functions) for the graph '
                         'algorithms; deductive obligations only for the non-worklist pieces')
